@@ -122,6 +122,10 @@ def parseHdr (tok : String) : Option (Hdr String) :=
     let i ← i.toNat?
     let wok ← wokOf w sigs
     pure ⟨i, next, w, wok⟩
+  | [i, next, w, sigs, "p"] => do   -- hash-linked to the preceding header of the batch: irrelevant to the decision
+    let i ← i.toNat?
+    let wok ← wokOf w sigs
+    pure ⟨i, next, w, wok⟩
   | _ => none
 
 def showRej : Rej → String
